@@ -356,6 +356,16 @@ def s4_custody(F, R, M, roles, rule='S4', only=None):
                 if not adds or not slot or (idx_field and not rec):
                     good = False
                     det = 'add performed=%s, buffer stored in the slot of the new token=%s, token recorded in `%s`=%s' % (bool(adds), bool(slot), idx_field, bool(rec))
+                # the slot of the new token must be *empty* on the storing path (an occupied slot means the token is already in
+                # flight): is_some(slot) false / is_none(slot) true / discriminant None
+                for disc, (kind, vals), _ in p.conds:
+                    d = disc
+                    truth = (kind == 'notin' and 0 in vals) or (kind == 'in' and 0 not in vals)
+                    if d[0] == 'call' and d[2].rsplit('::', 1)[-1] in ('is_some', 'is_none') and adds and derives_from(d, lambda x: x[0] == 'call' and x[1] == adds[0][1]):
+                        occupied = truth if d[2].endswith('is_some') else not truth
+                        if occupied:
+                            good = False
+                            det = 'the buffer is stored on the path where the slot of the new token is already occupied (and refused when it is free)'
             R.check(good, rule, '%s:store-by-new-token' % b['id'], where, 'recycled buffer stored in the slot of the new token, which is recorded in `%s`' % idx_field,
                     'recycle_rx_buffer breaks the token <-> buffer mapping that receive() relies on: %s' % det)
         if b['name'] == 'can_recv' and not only:
